@@ -55,6 +55,9 @@ Open(o, s)  == Get(o.open, s, NoOpen)
 Known(o, s) == s \in DOMAIN o.rec
 ClaimSat(r) == IF r.role \in {"out_sender", "out_receiver"} THEN r.amount + r.premium ELSE r.amount
 OpenSat(r)  == IF r.role \in {"in_sender", "in_receiver"} THEN r.amount + r.premium ELSE r.amount
+\* 32-bit safe: values beyond 2*10^9 are logged as 2000000001 ("huge"); sums with a huge / extreme premium are themselves huge
+Huge == 2000000001
+ClaimMsat(r) == LET c == ClaimSat(r) IN IF c > 2000000 \/ c < 0 THEN Huge ELSE c * 1000
 NormScid(a) == a   \* the harness logs channel ids already normalised in field nscid
 
 (* ------------------------------------------------------------------------ *)
@@ -77,7 +80,7 @@ ChkHtlc(o, e) ==
        \cup (IF ~tx.any_good THEN {"C01|no-valid-output" \o pre} ELSE {})
        \cup (IF ~(tx.hash_locked /\ tx.inv_hash = e.hash) THEN {"C01|hash-not-locked" \o pre} ELSE {})
        \cup (IF tx.sid # s THEN {"C01|other-swaps-tx" \o pre} ELSE {}))
-    \cup (IF IsInt(e.msat) /\ IsInt(r.amount) /\ e.msat # ClaimSat(r) * 1000 THEN {"C01|invoice-amount" \o pre, "C12|claim-amount" \o pre} ELSE {})
+    \cup (IF e.msat # ClaimMsat(r) THEN {"C01|invoice-amount" \o pre, "C12|claim-amount" \o pre} ELSE {})
     \cup (IF r.premium > r.limit /\ r.role = "out_sender" THEN {"C12|premium-over-limit" \o pre} ELSE {})
     \cup (IF e.payee # r.peer THEN {"C01|payee" \o pre} ELSE {})
     \cup (IF r.cur = "State_SwapCanceled" THEN {"C15|pay-after-cancel" \o pre} ELSE {})
@@ -90,8 +93,10 @@ ChkHtlc(o, e) ==
           ELSE {})
     \cup (IF r.chain = "lbtc" /\ r.ver # 7 THEN {"C04|legacy-new-payment" \o pre} ELSE {})
     \cup (IF r.chain = "btc" /\ tx.known /\ tx.conf > 0 /\ ~(tip + e.delta < tx.conf + 1008)
-          THEN {"C05|htlc-outlives-csv" \o pre \o "|pay-start=" \o ToString(tip - r.start) \o "|conf-start=" \o ToString(tx.conf - r.start)
-                  \o "|cltv=" \o ToString(e.cltv)} ELSE {})
+          THEN {"C05|htlc-outlives-csv" \o pre
+                  \o "|confirmed=" \o (IF tx.conf - r.start < -2 THEN "long-before-start" ELSE IF tx.conf - r.start <= 4 THEN "around-start" ELSE "later")
+                  \o "|paid=" \o (IF tip - r.start > 504 THEN "beyond-window" ELSE IF tip - r.start < 0 THEN "before-start" ELSE "within-window")
+                  \o "|cltv=" \o (IF e.cltv > 504 THEN "over-504" ELSE "accepted")} ELSE {})
     \cup (IF r.chain = "btc" /\ (e.cltv > 504 \/ e.cltv < 0) THEN {"C05|invoice-cltv" \o pre} ELSE {})
 
 \* C12: the fee invoice is paid
@@ -142,7 +147,7 @@ ChkSend(o, e) ==
             (IF e.tx # op.tx THEN {"C08|txid"} ELSE {})
             \cup (IF e.vout # op.vout THEN {"C08|vout|" \o r.chain \o "|swap-output-at-" \o ToString(op.vout) \o "|announced-" \o ToString(e.vout)} ELSE {})
             \cup (IF e.inv_hash # op.hash THEN {"C08|invoice-hash"} ELSE {})
-            \cup (IF IsInt(e.inv_msat) /\ e.inv_msat # ClaimSat(r) * 1000 THEN {"C08|invoice-amount", "C12|claim-invoice-amount|" \o r.role} ELSE {})
+            \cup (IF e.inv_msat # ClaimMsat(r) THEN {"C08|invoice-amount", "C12|claim-invoice-amount|" \o r.role} ELSE {})
             \cup (IF e.inv_expiry # (IF r.chain = "btc" THEN 86400 ELSE 3600) THEN {"C08|invoice-expiry|" \o r.chain} ELSE {})
             \cup (IF e.inv_cltv # (IF r.chain = "btc" THEN 503 ELSE 29) THEN {"C08|invoice-cltv|" \o r.chain} ELSE {})
             \cup (IF e.blind # (r.chain = "lbtc") THEN {"C08|blinding-key|" \o r.chain} ELSE {}))
